@@ -25,6 +25,8 @@ type c6Close struct {
 	err        error
 	inProgress []*c6Inv // invocations running at the instant the call returned
 	badState   []string // R2 findings at that instant
+	invAt      time.Duration
+	retAt      time.Duration
 }
 
 type c6Handler struct {
@@ -127,7 +129,7 @@ func c06Body(r *Run) {
 	runInProgressAtReturn := -1
 	earlyClose := false
 	doClose := func(who string) {
-		c := &c6Close{who: who, inv: tick()}
+		c := &c6Close{who: who, inv: tick(), invAt: r.Sim.Now()}
 		closes = append(closes, c)
 		if !rig.Router.IsRunning() {
 			// closing a router that is not running yet is outside the property: only "every call returns" is demanded
@@ -140,6 +142,7 @@ func c06Body(r *Run) {
 			r.Fail("C06.R4", "Router.Close panicked", "%s: %v", who, pv)
 		}
 		c.ret = tick()
+		c.retAt = r.Sim.Now()
 		c.inProgress = running()
 		if c.err != nil {
 			r.Fault("close-timeout-expired")
@@ -184,6 +187,14 @@ func c06Body(r *Run) {
 		if earlyClose {
 			r.Probe("close-before-running")
 			return
+		}
+		// "returns an error instead of hanging": no call takes (noticeably) longer than CloseTimeout of simulated time
+		if r.Params["clock_jumps"] == 0 {
+			for _, c := range closes {
+				if d := c.retAt - c.invAt; d > closeTimeout+200*time.Millisecond {
+					r.Fail("C06.R3", "a Router.Close call took longer than CloseTimeout", "%s took %v of simulated time, CloseTimeout %v, returned %v", c.who, d, closeTimeout, c.err)
+				}
+			}
 		}
 		var firstNil *c6Close
 		for _, c := range closes {
@@ -308,6 +319,7 @@ func init() {
 			c := BaseConfig()
 			c.Horizon = 10 * time.Minute
 			c.ClockJumps, c.JumpMax, c.JumpWithin = 3, 3*time.Second, 600
+			r.Param("clock_jumps", 1)
 			return c
 		},
 		Body: c06Body, Real: real, Stubs: stubs,
